@@ -406,7 +406,7 @@ func C09(r *eng.Run) {
 	r.Phase("FromFloat32", t0, nil)
 
 	t0 = time.Now()
-	shapes := Shapes(r.Thorough())
+	shapes := Shapes(true)
 	var exps []int
 	for q := -400; q <= 330; q++ {
 		exps = append(exps, q)
